@@ -27,7 +27,7 @@ type RunSpec struct {
 	ReqHost  string
 	Via      string
 	Agent    string   // honest nokey otherkey otherdata replay garbage empty fail close
-	Handlers []string // real | accept | reject
+	Handlers []string // real | accept | reject | reject-disabled | reject-invalid | reject-unknown | reject-untyped | reject-panic-typed
 }
 
 type Case struct {
@@ -77,7 +77,7 @@ func gen(t *rapid.T) Case {
 			if j == realAt {
 				r.Handlers = append(r.Handlers, "real")
 			} else {
-				r.Handlers = append(r.Handlers, rapid.SampledFrom([]string{"reject", "reject", "accept"}).Draw(t, fmt.Sprintf("%sH%d", l, j)))
+				r.Handlers = append(r.Handlers, rapid.SampledFrom([]string{"reject", "reject", "accept", "accept", "reject-disabled", "reject-disabled", "reject-invalid", "reject-unknown", "reject-untyped", "reject-panic-typed"}).Draw(t, fmt.Sprintf("%sH%d", l, j)))
 			}
 		}
 		c.Runs = append(c.Runs, r)
@@ -240,7 +240,7 @@ func exec(c Case) (vh.Outcome, error) {
 				handlers = append(handlers, h)
 				fakes = append(fakes, nil)
 			} else {
-				fh := &vh.FakeHandler{ID: fmt.Sprintf("h%d", j), Accept: kind == "accept", Log: hlog}
+				fh := &vh.FakeHandler{ID: fmt.Sprintf("h%d", j), Accept: kind == "accept", Log: hlog, RejectKind: strings.TrimPrefix(strings.TrimPrefix(kind, "reject"), "-")}
 				handlers = append(handlers, fh)
 				fakes = append(fakes, fh)
 			}
@@ -386,7 +386,7 @@ func orDefault(name string) string {
 	return name
 }
 
-const rule = "histories of 1..4 runs of gensign.Run sharing one registered-key directory and one scripted forwarded agent. Per run: login name (incl. names of other users and 'alice.pub'), namespace policy NONS / NSOK, hardware-key flag, client-declared user / host different from the login name, parameters built directly or through NewReqParam, agent behaviour {honest, lacks the key, signs with another key, signs other data, replays a signature captured earlier in the history, garbage, empty signature, failure, closes the connection}, handler list of 1..4 entries with at most one real regular handler among accepting / rejecting harness handlers. Directory: '<n>.pub' and bare '<n>' files holding any user's key, both with different keys, unparsable, absent. Oracle: the harness sees every sign request and reply and decides itself (K.Verify over this run's challenge under the registered key) whether the real handler may authenticate; CA call or add-identity => the selected handler is the first in list order that authenticates, earlier ones asked once, later ones never; none => AllAuthFailed, no Generate, no CA call, no add; a handler authenticates => the run succeeds with exactly one request from that handler; challenges are 64 bytes, only under the registered key, pairwise distinct over the history. Non-trivial: an adversarial agent while the key file exists, or a reject before an accept in a list of >= 2."
+const rule = "histories of 1..4 runs of gensign.Run sharing one registered-key directory and one scripted forwarded agent. Per run: login name (incl. names of other users and 'alice.pub'), namespace policy NONS / NSOK, hardware-key flag, client-declared user / host different from the login name, parameters built directly or through NewReqParam, agent behaviour {honest, lacks the key, signs with another key, signs other data, replays a signature captured earlier in the history, garbage, empty signature, failure, closes the connection}, handler list of 1..4 entries with at most one real regular handler among accepting harness handlers and harness handlers rejecting with every kind of error (authentication, disabled, invalid parameters, unknown, panic-typed, untyped). Directory: '<n>.pub' and bare '<n>' files holding any user's key, both with different keys, unparsable, absent. Oracle: the harness sees every sign request and reply and decides itself (K.Verify over this run's challenge under the registered key) whether the real handler may authenticate; CA call or add-identity => the selected handler is the first in list order that authenticates, earlier ones asked once, later ones never; none => AllAuthFailed, no Generate, no CA call, no add; a handler authenticates => the run succeeds with exactly one request from that handler; challenges are 64 bytes, only under the registered key, pairwise distinct over the history. Non-trivial: an adversarial agent while the key file exists, or a reject before an accept in a list of >= 2."
 
 func TestC01Auth(t *testing.T) {
 	vh.Run(t, vh.Spec[Case]{Property: "C01", Name: "TestC01Auth", Rule: rule, Gen: gen, Exec: exec})
